@@ -73,7 +73,7 @@ impl Property for C13 {
          oracle = brute force over EVERY lattice point of the box and EVERY integer slack value in the new variable's bounds, in exact rational arithmetic; non-trivial = converted, >=2 variables, both feasible and infeasible lattice points; distinct = sha256(instance, call)"
     }
     fn required_labels(&self) -> Vec<String> {
-        ["outcome=converted", "outcome=relaxed", "outcome=infeasible", "outcome=range-exceeded", "reject=unknown-id", "reject=equality", "reject=continuous", "reject=undefined-variable", "reject=infinite-range", "rational-coeff", "quadratic", "op=convert", "op=add-slack", "other-constraints", "negative-box", "binary-variable", "unsorted-variable-list", "limit=needed", "limit=needed-1", "second-conversion", "integer-linear-max-exactly-zero", "binary-fixed-by-bound", "one-hot-hint-of-relaxed-constraint", "reject=continuous-with-zero-coefficient"].iter().map(|s| s.to_string()).collect()
+        ["outcome=converted", "outcome=relaxed", "outcome=infeasible", "outcome=range-exceeded", "reject=unknown-id", "reject=equality", "reject=continuous", "reject=undefined-variable", "reject=infinite-range", "rational-coeff", "quadratic", "op=convert", "op=add-slack", "other-constraints", "negative-box", "binary-variable", "unsorted-variable-list", "limit=needed", "limit=needed-1", "second-conversion", "history=add-encode-substitute-convert", "integer-linear-max-exactly-zero", "binary-fixed-by-bound", "one-hot-hint-of-relaxed-constraint", "reject=continuous-with-zero-coefficient"].iter().map(|s| s.to_string()).collect()
     }
     fn cases(&self, tier: Tier) -> usize {
         match tier {
@@ -95,6 +95,8 @@ impl Property for C13 {
     fn run(&self, t: &mut Tape, ctx: &mut Ctx) -> PResult {
         let op_add = t.coin();
         ctx.label(if op_add { "op=add-slack" } else { "op=convert" });
+        // after add_integer_slack_to_inequality: log-encode the slack, substitute it, and convert the same constraint
+        let encode_history = t.p(100);
         let reject = if t.p(64) { 1 + t.choice(6) } else { 0 }; // 1 unknown id, 2 equality, 3 continuous var, 4 no function, 5 undefined variable id in the function, 6 unbounded integer variable (infinite slack range) with any limit up to u64::MAX
         let limit_mode = t.weighted(&[4, 2, 2, 1]); // exact needed, needed-1, generous, tiny
         let nv = 1 + t.choice(3);
@@ -684,6 +686,64 @@ impl Property for C13 {
                         }
                         if nv >= 2 && both.0 && both.1 {
                             ctx.nontrivial();
+                        }
+                        // history: the slack that was just added is log-encoded and substituted (it becomes a DEPENDENT variable),
+                        // then the same constraint - now an inequality over x and the bits - is converted to an equality.
+                        // The conversion must introduce a slack of its own and keep the feasible set over (x, bits).
+                        if op_add && encode_history && shi_i >= 1 && shi_i <= 7 && pts.len() <= 64 {
+                            let mut h = inst.clone();
+                            if let Ok(lin) = h.log_encode(s.id) {
+                                let bit_ids: Vec<u64> = lin.terms.iter().map(|t| t.id).collect();
+                                let mut rep = std::collections::HashMap::new();
+                                rep.insert(s.id, crate::mk::flin(lin));
+                                if h.substitute(rep).is_ok() && bit_ids.len() <= 3 {
+                                    let before_h = h.clone();
+                                    let ids_h: BTreeSet<u64> = before_h.decision_variables.iter().map(|v| v.id).collect();
+                                    let f_h = Poly::from_opt_function(&before_h.constraints.iter().find(|c| c.id == cid).and_then(|c| c.function.clone()));
+                                    if h.convert_inequality_to_equality_with_integer_slack(cid, 100_000).is_ok() {
+                                        if let Some(c2) = h.constraints.iter().find(|c| c.id == cid) {
+                                            ctx.label("history=add-encode-substitute-convert");
+                                            let fresh: Vec<&v1::DecisionVariable> = h.decision_variables.iter().filter(|v| !ids_h.contains(&v.id)).collect();
+                                            if fresh.len() != 1 || h.decision_variables.len() != ids_h.len() + 1 {
+                                                return fail("C13/history/no-fresh-slack", format!("converting the constraint after its first slack was encoded and substituted did not introduce exactly one variable with a fresh id (ids before {:?}, after {:?}): {}", ids_h, h.decision_variables.iter().map(|v| v.id).collect::<Vec<_>>(), what()));
+                                            }
+                                            let s2 = fresh[0];
+                                            let (l2, u2) = s2.bound.as_ref().map(|b| (b.lower, b.upper)).unwrap_or((f64::NAN, f64::NAN));
+                                            if !(l2.is_finite() && u2.is_finite() && l2 <= u2 && u2 - l2 <= 1e6) || !(s2.kind == KIND_INTEGER || s2.kind == KIND_BINARY) {
+                                                return fail("C13/history/slack-shape", format!("second slack kind {} bound {:?}: {}", s2.kind, s2.bound, what()));
+                                            }
+                                            let g2 = Poly::from_opt_function(&c2.function);
+                                            for p in pts.iter() {
+                                                for bits in 0u32..(1 << bit_ids.len()) {
+                                                    let mut st = qpoint(p);
+                                                    for (k, b) in bit_ids.iter().enumerate() {
+                                                        st.insert(*b, qi(((bits >> k) & 1) as i64));
+                                                    }
+                                                    let Some(v0) = f_h.eval(&st) else { continue };
+                                                    let feas0 = v0 <= tol;
+                                                    let mut exists = false;
+                                                    for sv in (l2.ceil() as i64)..=(u2.floor() as i64) {
+                                                        st.insert(s2.id, qi(sv));
+                                                        match g2.eval(&st) {
+                                                            Some(v) => {
+                                                                if v.abs() < tol {
+                                                                    exists = true;
+                                                                    break;
+                                                                }
+                                                            }
+                                                            None => return fail("C13/history/foreign-variable", format!("the converted constraint mentions a variable without a value (the substituted slack?): {}: {}", g2.describe(), what())),
+                                                        }
+                                                    }
+                                                    st.remove(&s2.id);
+                                                    if feas0 != exists {
+                                                        return fail("C13/history/feasible-set", format!("after add -> log_encode -> substitute -> convert: x = {p:?}, bits = {bits:b}: inequality {} but {} slack value satisfies the equality {}: {}", if feas0 { "holds" } else { "fails" }, if exists { "some" } else { "no" }, g2.describe(), what()));
+                                                    }
+                                                }
+                                            }
+                                        }
+                                    }
+                                }
+                            }
                         }
                         // multi-step: convert the second inequality on the same instance; its slack must be fresh
                         // with respect to everything that exists now, including the first slack
